@@ -75,6 +75,7 @@ type Case struct {
 	IndexTarget string `json:"index_target,omitempty"`
 	IndexMode   string `json:"index_mode,omitempty"`
 	IndexFaults []int  `json:"index_faults,omitempty"`
+	CacheSelf   bool   `json:"cache_self,omitempty"` // cli-cache: the target store is also the (only) source: -s X -c X
 	Retry       int    `json:"retry,omitempty"` // cli: --error-retry value; s3/http targets: StoreOptions.ErrorRetry
 	// Refuse: http / http-plain targets: status with which a faulted PUT is answered instead of 500 (0 = 500). A 4xx
 	// refusal (the server did not store the object) is final: no retry budget covers it
@@ -317,6 +318,15 @@ func genCase(t *rapid.T) Case {
 		c.BlockSel = rapid.IntRange(0, 1<<16).Draw(t, "blocksel")
 	}
 	c.Pieces = dupBlob(t, c.Sizes, maxLen)
+	if !large && c.Op != "index" && c.Op != "storage" && (c.Target == "" || c.Target == "mem") && rapid.IntRange(0, 39).Draw(t, "manychunks") == 0 {
+		// more chunks than the usual initial capacities of the lists that collect them (1024, 2048, 4096), all distinct,
+		// several workers: about k chunks of 48..96 bytes
+		k := rapid.SampledFrom([]int{1000, 1024, 1025, 1100, 1500, 2048, 2049, 2100, 3000, hx.Pick(2500, 4097), hx.Pick(1200, 5000)}).Draw(t, "manyk")
+		c.Sizes = gen.Sizes{Min: 48, Avg: 64, Max: 96}
+		c.Pieces = []gen.Piece{{Kind: "rand", Len: k * 80, Seed: rapid.Uint64().Draw(t, "manyseed")}}
+		c.N = rapid.SampledFrom([]int{2, 4, 8, 8, 16}).Draw(t, "manyn")
+		c.Target = ""
+	}
 	c.Faults = genFaults(t, c.Op)
 	if c.Refuse != 0 { // a refusal needs a faulted PUT among the first few
 		c.Faults = append(c.Faults, Fault{Store: "dst", Kind: "store", K: rapid.IntRange(1, 4).Draw(t, "refusek")})
@@ -748,6 +758,12 @@ func run(c Case) (o hx.Outcome) {
 
 	// ---- classification
 	o.Class("op:"+op, "target:"+tg.kind)
+	if nch > 1024 {
+		o.Class("chunks>1024", "chunks>1024:"+op)
+		if nch > 2048 {
+			o.Class("chunks>2048")
+		}
+	}
 	if realTarget {
 		if c.Unc && tg.kind != "http" {
 			o.Class("target:uncompressed")
@@ -1025,7 +1041,7 @@ var spec = &hx.Spec[Case]{
 		"chunk>256KiB:compressed-target:local", "chunk>256KiB:compressed-target:s3", "chunk>256KiB:compressed-target:http", "chunk>256KiB:uncompressed-target",
 		"index-target:http", "index-target:http-plain", "index-target:s3", "index-target:local", "index-target:sftp", "index-target:http:first-put-fails-then-ok", "index-target:http:all-attempts-fail",
 		"index-target:http:error-retry=0", "index-target:http:error-retry=3", "index-target:s3:fault-delivered", "index-target:local:dir-in-the-way", "index:stored", "index:store-error",
-		"s3:fault-not-absorbed", "s3:fault-absorbed-by-retry", "http:fault-not-absorbed", "http:fault-absorbed-by-retry", "local:blocked-dir", "local:short-write", "local:short-write-delivered", "http:put-refused-4xx", "http:put-refused-409"},
+		"s3:fault-not-absorbed", "s3:fault-absorbed-by-retry", "http:fault-not-absorbed", "http:fault-absorbed-by-retry", "local:blocked-dir", "local:short-write", "local:short-write-delivered", "http:put-refused-4xx", "http:put-refused-409", "chunks>1024", "chunks>2048", "chunks>1024:stream", "chunks>1024:make", "chunks>1024:chop", "chunks>1024:copy"},
 	Gen:      genCase,
 	Run:      run,
 	Journal:  true,
@@ -1037,7 +1053,7 @@ func TestMain(m *testing.M) {
 		childMain(job) // never returns
 	}
 	if cliEnabled() {
-		spec.Required = append(spec.Required, "op:cli-make", "op:cli-chop", "op:cli-cache", "op:cli-tar", "cli:readback", "cli:null-chunk", "op:cli-index", "cli:delivered-500", "cli:exit-0", "cli:exit-nonzero")
+		spec.Required = append(spec.Required, "op:cli-make", "op:cli-chop", "op:cli-cache", "op:cli-tar", "cli:readback", "cli:null-chunk", "cli-cache:source-is-target:chunk-missing", "op:cli-index", "cli:delivered-500", "cli:exit-0", "cli:exit-nonzero")
 		if hx.Thorough() {
 			spec.Required = append(spec.Required, "cli:chunk>256KiB", "cli-index:first-put-fails-then-ok")
 		}
